@@ -26,8 +26,28 @@ func (p Persist) Load(ctx context.Context, name string) ([]byte, error) {
 func (p Persist) Store(ctx context.Context, name string, bytes []byte) error {
 	path := filepath.Join(p.basepath, name)
 	_, err := os.Stat(path)
-	if os.IsNotExist(err) {
-		return os.WriteFile(filepath.Join(p.basepath, name), bytes, 0644)
+	if !os.IsNotExist(err) {
+		return err
+	}
+	// Write to a temporary file and rename it into place, so that a crash
+	// or I/O error part-way never leaves a truncated node under its name
+	// (which Load would return, and a later Store would skip).
+	tmp, err := os.CreateTemp(p.basepath, "tmp-*")
+	if err != nil {
+		return err
+	}
+	_, err = tmp.Write(bytes)
+	if cerr := tmp.Close(); err == nil {
+		err = cerr
+	}
+	if err == nil {
+		err = os.Chmod(tmp.Name(), 0644)
+	}
+	if err == nil {
+		err = os.Rename(tmp.Name(), path)
+	}
+	if err != nil {
+		os.Remove(tmp.Name())
 	}
 	return err
 }
